@@ -1,9 +1,21 @@
 #!/bin/sh
-# tools/selftest_seeds.sh: every kept seeded change against the check of its property (scratch copies of /repo)
+# tools/selftest_seeds.sh [streams]: every kept seeded change against the check of its property (scratch copies of /repo).
+# The seeds of one property run one after the other (they share a log and an output directory), properties in parallel streams.
+# A line "<seed> exit=1" means: reported; neutral-* are controls and must give exit=0.
 cd /verif
-for d in seeded/*/; do
-  n=$(basename $d); p=${n%%-*}
-  case $n in neutral-*) p=$(python3 -c "import json;print(json.load(open('$d/meta.json'))['property'])");; esac   # controls: exit=0 expected
+N=${1:-4}
+one() {
+  d=$1; n=$(basename $d); p=${n%%-*}
+  case $n in neutral-*) p=$(python3 -c "import json;print(json.load(open('$d/meta.json'))['property'])");; esac
   r=$(tools/try_seed.sh $p /verif/$d/patch.diff 2>&1 | head -1)
   echo "$n $r"
+}
+props=$(ls seeded | sed 's/-.*//' | sort -u | grep -v neutral)
+i=0
+for p in $props; do
+  i=$((i+1))
+  ( for d in seeded/$p-*; do one $d; done; if [ "$p" = "C17" ]; then for d in seeded/neutral-*; do one $d; done; fi ) > /tmp/selftest_$p.out 2>&1 &
+  if [ $((i % N)) -eq 0 ]; then wait; fi
 done
+wait
+cat /tmp/selftest_C*.out
